@@ -157,7 +157,9 @@ macro_rules! do_text_token_tok {
         do_each!($i,
            span => input!(),
            frag => text_token!($text_token),
-           _ => either!(whitespace, comment),
+           // Only look ahead: consuming a comment here would drop it from
+           // the comment map.
+           _ => peek!(either!(whitespace, comment)),
            (Token {
                typ: $type,
                pos: Position::from(&span),
